@@ -131,6 +131,8 @@ def global_slot():
     """At most N simulated processes run at once on this machine, however many checks run side by side
     (file locks under .build/slots; N = VERIF_SLOTS or the number of CPUs, at most 16)."""
     n = int(os.environ.get("VERIF_SLOTS", "0") or 0) or min(16, os.cpu_count() or 4)
+    if LOW_RESOURCE[0]:
+        n = min(n, 2)
     d = os.path.join(BUILD, "slots")
     os.makedirs(d, exist_ok=True)
     start = (os.getpid() * 7 + int(time.time() * 1000)) % n
@@ -160,6 +162,37 @@ RESOURCE_MARKS = ("failed to create new OS thread", "pthread_create failed", "Re
                   "cannot allocate memory", "runtime: may need to increase max user processes", "newosproc", "fork/exec")
 
 
+LOW_RESOURCE = [False]   # set once the machine refused a process / thread: the rest of the batch runs one child at a time
+DIAG_PRINTED = [False]
+
+
+def resource_diag():
+    """What the machine looks like when it refuses processes / threads (printed once per check, for the logs)."""
+    out = []
+    def sh(cmd):
+        try:
+            return subprocess.run(cmd, shell=True, stdout=subprocess.PIPE, stderr=subprocess.STDOUT, text=True, timeout=20).stdout.strip()
+        except Exception as e:  # noqa
+            return "(%s: %r)" % (cmd, e)
+    out.append("threads=%s procs=%s load=%s" % (sh("ls /proc/*/task 2>/dev/null | grep -c '^[0-9]'"), sh("ls -d /proc/[0-9]* | wc -l"), sh("cat /proc/loadavg")))
+    out.append("mem: " + sh("grep -E 'MemTotal|MemAvailable|Committed_AS|CommitLimit' /proc/meminfo | tr -s ' ' | tr '\n' ';'"))
+    out.append("limits: nproc=%s pid_max=%s threads-max=%s cgroup pids.max=%s pids.current=%s overcommit=%s" % (
+        sh("bash -c 'ulimit -u'"), sh("cat /proc/sys/kernel/pid_max"), sh("cat /proc/sys/kernel/threads-max"),
+        sh("cat /sys/fs/cgroup/pids.max 2>/dev/null || cat /sys/fs/cgroup/pids/pids.max 2>/dev/null"), sh("cat /sys/fs/cgroup/pids.current 2>/dev/null"), sh("cat /proc/sys/vm/overcommit_memory")))
+    out.append("most frequent commands: " + sh("for d in /proc/[0-9]*; do n=$(ls $d/task 2>/dev/null | wc -l); c=$(tr '\\0' ' ' < $d/cmdline 2>/dev/null | cut -c1-60); echo \"$n $c\"; done | sort -k2 | awk '{n[$2\" \"$3\" \"$4]+=$1; p[$2\" \"$3\" \"$4]++} END {for (k in n) print n[k]\" threads / \"p[k]\" procs: \"k}' | sort -rn | head -12 | tr '\n' '|'"))
+    return "\n".join(out)
+
+
+def note_low_resource():
+    LOW_RESOURCE[0] = True
+    if not DIAG_PRINTED[0]:
+        DIAG_PRINTED[0] = True
+        try:
+            log("RESOURCE DIAGNOSTICS (the machine refused a process or thread):\n" + resource_diag())
+        except Exception as e:  # noqa
+            log("RESOURCE DIAGNOSTICS failed: %r" % (e,))
+
+
 def spawn_with_retry(cmd, workdir, env, timeout):
     """subprocess.run that waits when the machine is out of processes / threads (other checks running beside this one)."""
     delay, waited = 0.2, 0.0
@@ -169,7 +202,8 @@ def spawn_with_retry(cmd, workdir, env, timeout):
         except (BlockingIOError, RuntimeError, OSError) as e:
             if isinstance(e, OSError) and not isinstance(e, BlockingIOError) and e.errno not in (11, 12, 24):
                 raise
-            if waited > 300:
+            note_low_resource()
+            if waited > 120:
                 raise
             time.sleep(delay)
             waited += delay
@@ -209,9 +243,12 @@ def run_child(plan, workdir, keeplog=False, timeout=90, gomaxprocs="1"):
                 if os.path.exists(of) or not any(m.encode() in (out + err) for m in RESOURCE_MARKS):
                     break
                 # the process died before it could run (the machine is out of threads / processes): wait and try again
-                time.sleep(min(0.5 + attempt * 0.5, 8.0))
+                note_low_resource()
+                if attempt >= 12:
+                    return {"status": "no_resources", "rc": rc, "output": "child could not be started (the machine is out of threads/processes) after %d attempts" % (attempt + 1), "plan": plan, "stats": {}, "probes": {}}
+                time.sleep(min(0.5 + attempt * 0.5, 6.0))
             else:
-                return {"status": "noresult", "rc": rc, "output": "child could not be started (out of threads/processes) after 40 attempts:\n" + (out + err).decode("utf8", "replace")[-3000:], "plan": plan, "stats": {}, "probes": {}}
+                return {"status": "no_resources", "rc": rc, "output": "child could not be started (the machine is out of threads/processes)", "plan": plan, "stats": {}, "probes": {}}
         except subprocess.TimeoutExpired as e:
             return {"status": "timeout", "harness": "child exceeded %ds wall" % timeout, "plan": plan, "stats": {}, "probes": {},
                     "stdout": (e.stdout or b"")[-4000:].decode("utf8", "replace")}
@@ -342,11 +379,19 @@ def parallel_map(fn, items, jobs, deadline=None):
                     return
                 if deadline is not None and time.time() > deadline:
                     continue  # wall-clock budget used up: the remaining items are not started (out[i] stays None)
+                if LOW_RESOURCE[0] and tok is not None:
+                    q.put((i, it))
+                    return  # the machine is short of processes: only the calling thread goes on
                 try:
                     out[i] = fn(it)
                 except Exception as e:  # noqa
-                    out[i] = {"status": "harness_error", "harness": "driver: %r" % (e,), "plan": it if isinstance(it, dict) else None, "stats": {}, "probes": {}}
-                grow()
+                    st = "harness_error"
+                    if isinstance(e, (BlockingIOError, MemoryError)) or (isinstance(e, OSError) and e.errno in (11, 12, 24)) or "can't start new thread" in repr(e):
+                        st = "no_resources"
+                        note_low_resource()
+                    out[i] = {"status": st, "harness": "driver: %r" % (e,), "plan": it if isinstance(it, dict) else None, "stats": {}, "probes": {}}
+                if not LOW_RESOURCE[0]:
+                    grow()
         finally:
             if tok is not None:
                 with tl:
@@ -619,8 +664,13 @@ def cmd_check(prop, tier, seed, runs_override=None):
     results = runner.run_all(deadline=(time.time() + budget_s) if budget_s else None)
     planned = len(results)
     results = [r for r in results if r is not None]
+    starved = [r for r in results if r.get("status") == "no_resources"]
+    results = [r for r in results if r.get("status") != "no_resources"]
     known = load_known()
     notes = []
+    if starved:
+        notes.append("%d planned run(s) could not be started because the machine refused processes / threads (other work on the machine); they are left out" % len(starved))
+        log("NOTE: %d run(s) could not be started because the machine refused processes / threads; left out (%d runs executed)" % (len(starved), len(results)))
     if len(results) < planned:
         notes.append("wall-clock budget of %.0fs reached: %d of %d planned runs were executed" % (budget_s, len(results), planned))
         log("NOTE: wall-clock budget of %.0fs reached: %d of %d planned runs were executed" % (budget_s, len(results), planned))
